@@ -1,6 +1,8 @@
 package streams
 
 import (
+	apierrors "k8s.io/apimachinery/pkg/api/errors"
+	"k8s.io/apimachinery/pkg/runtime/schema"
 	"context"
 	"fmt"
 	"math/rand"
@@ -38,7 +40,7 @@ func failingClient(objs []client.Object, fail func(name string) bool, injected *
 		Delete: func(ctx context.Context, c client.WithWatch, obj client.Object, opts ...client.DeleteOption) error {
 			if fail(obj.GetName()) {
 				atomic.AddInt64(injected, 1)
-				return fmt.Errorf("injected delete failure %s", obj.GetName())
+				return injectedErr("delete", obj.GetName())
 			}
 			return c.Delete(ctx, obj, opts...)
 		},
@@ -49,11 +51,39 @@ func failingClient(objs []client.Object, fail func(name string) bool, injected *
 			}
 			if fail(key) {
 				atomic.AddInt64(injected, 1)
-				return fmt.Errorf("injected create failure %s", key)
+				return injectedErr("create", key)
 			}
 			return c.Create(ctx, obj, opts...)
 		},
 	})
+}
+
+// injectedErr: the injected failures cover the kinds of error an API server returns (the property says
+// EVERY error is reflected, whatever its kind), chosen by the object name so that a batch mixes them.
+func injectedErr(verb, name string) error {
+	h := 0
+	for _, c := range name {
+		h = h*31 + int(c)
+	}
+	if h < 0 {
+		h = -h
+	}
+	gr := schema.GroupResource{Resource: "pods"}
+	switch h % 7 {
+	case 0:
+		return apierrors.NewNotFound(gr, name)
+	case 1:
+		return apierrors.NewAlreadyExists(gr, name)
+	case 2:
+		return apierrors.NewConflict(gr, name, fmt.Errorf("injected %s conflict", verb))
+	case 3:
+		return apierrors.NewServerTimeout(gr, verb, 1)
+	case 4:
+		return apierrors.NewForbidden(gr, name, fmt.Errorf("injected %s forbidden", verb))
+	case 5:
+		return apierrors.NewInternalError(fmt.Errorf("injected %s failure %s", verb, name))
+	}
+	return fmt.Errorf("injected %s failure %s", verb, name)
 }
 
 // parallel: the three fan-out / fan-in helpers with none / some / all calls failing.
